@@ -177,6 +177,7 @@ public:
 
 		std::lock_guard<Mutex> lockGuard(mutex);
 		EVENTPP_VERIF_POINT("cl.append.cs");
+		node->counter = getNextCounter();
 
 		if(head) {
 			node->previous = tail;
@@ -197,6 +198,7 @@ public:
 
 		std::lock_guard<Mutex> lockGuard(mutex);
 		EVENTPP_VERIF_POINT("cl.prepend.cs");
+		node->counter = getNextCounter();
 
 		if(head) {
 			node->next = head;
@@ -223,6 +225,7 @@ public:
 
 			std::lock_guard<Mutex> lockGuard(mutex);
 			EVENTPP_VERIF_POINT("cl.insert.cs");
+			node->counter = getNextCounter();
 
 			// beforeNode may have been removed already but is still referenced
 			// by a running invocation or by another thread, then append to the end.
@@ -320,14 +323,14 @@ public:
 	void operator() (Args ...args) const
 	{
 		NodePtr node;
+		Counter counter;
 
 		{
 			std::lock_guard<Mutex> lockGuard(mutex);
 			EVENTPP_VERIF_POINT("cl.foreach.head.cs");
 			node = head;
+			counter = currentCounter.load(std::memory_order_acquire);
 		}
-
-		const Counter counter = currentCounter.load(std::memory_order_acquire);
 
 		while(node) {
 			EVENTPP_VERIF_RACY_READ_BEGIN();
@@ -354,14 +357,14 @@ private:
 	bool doForEachIf(F && f) const
 	{
 		NodePtr node;
+		Counter counter;
 
 		{
 			std::lock_guard<Mutex> lockGuard(mutex);
 			EVENTPP_VERIF_POINT("cl.foreach.head.cs");
 			node = head;
+			counter = currentCounter.load(std::memory_order_acquire);
 		}
-
-		const Counter counter = currentCounter.load(std::memory_order_acquire);
 
 		while(node) {
 			EVENTPP_VERIF_RACY_READ_BEGIN();
@@ -413,7 +416,8 @@ private:
 	
 	NodePtr doAllocateNode(const Callback & callback)
 	{
-		return std::make_shared<Node>(callback, getNextCounter());
+		// The counter is assigned when the node is linked, with the mutex held, see getNextCounter.
+		return std::make_shared<Node>(callback, removedCounter);
 	}
 	
 	void doFreeNode(NodePtr & node)
@@ -453,17 +457,18 @@ private:
 		node.reset();
 	}
 
+	// The caller must hold the mutex (or own the list exclusively). If the counter is obtained before the mutex
+	// is taken, another thread can overflow the counter and reset the linked nodes in between, then the new node
+	// is linked with a stale counter greater than currentCounter and is never invoked. An invocation must also
+	// not start while the counter is 0 and the nodes are not reset yet, so it reads the counter under the mutex.
 	Counter getNextCounter()
 	{
 		Counter result = ++currentCounter;;
 		if(result == 0) { // overflow, let's reset all nodes' counters.
-			{
-				std::lock_guard<Mutex> lockGuard(mutex);
-				NodePtr node = head;
-				while(node) {
-					node->counter = 1;
-					node = node->next;
-				}
+			NodePtr node = head;
+			while(node) {
+				node->counter = 1;
+				node = node->next;
 			}
 			result = ++currentCounter;
 		}
